@@ -430,6 +430,11 @@ func c02r10(c *Ctx) {
 			continue
 		}
 		root := rootFuncName(fn)
+		if _, ok := c02r10NonNarrowing[root]; !ok {
+			if owner := p.extractedFrom(fn, func(f *ssa.Function) bool { _, in := c02r10NonNarrowing[stableFnName(f)]; return in }, 2); owner != nil {
+				root = stableFnName(owner)
+			}
+		}
 		if why, ok := c02r10NonNarrowing[root]; ok {
 			usedExc[root] = true
 			if debug {
